@@ -1140,6 +1140,9 @@ func (s *Sim) afterBlock() {
 		want := s.Model.RenderStats()
 		if strings.Join(want, "\n") != strings.Join(stats, "\n") {
 			s.violate("C12", "stats-equal-fold", "export-differs-from-fold", fmt.Sprintf("after block %d:\n  chain: %v\n  model: %v", s.N.Height, stats, want))
+			// C16 says the same of what is *recorded*: exactly the coins ICS-20 credited (the fold is made of those)
+			s.Stats.Count("rule:C16.recorded-coin")
+			s.violate("C16", "recorded-coin-is-credited-coin", "statistics-differ-from-the-credited-coins", fmt.Sprintf("after block %d: %s", s.N.Height, firstDiff(stats, want)))
 			s.statsTainted = true // report once per run
 		}
 	}
